@@ -256,6 +256,17 @@ pub fn nasty_family<const N: usize>(validated: impl Fn([u32; N]) -> u16) {
             }
         }
     }
+    // history: a valid hand first, then its near-miss twin (same rank and suit bits, wrong prime): still 0
+    let mut valid_twin = [0u32; N];
+    for i in 0..N {
+        valid_twin[i] = royal[i];
+    }
+    let _ = validated(valid_twin);
+    if validated(nearmiss) != 0 {
+        crate::sym::native::note(format!("after validating {:x?}, the near-miss {:x?} ranks non-zero", valid_twin, nearmiss));
+        crate::sym::native::fail("history family on the real code: a near-miss of a just-validated hand is accepted");
+        return;
+    }
     for p in pats {
         let mut q = p;
         q.reverse();
